@@ -5,7 +5,7 @@ import re
 
 ID = 'C14'
 LEVEL = 'other'
-TARGETS = []
+TARGETS = ['selfies/utils/selfies_utils.py::split_selfies']
 EXPLANATION = (
     "BOUNDED stand-in (not counted as proved) plus every deductive clause listed in coverage.clauses: for every "
     "well-formed string built from token lists (bracketed symbols with arbitrary inner text, single dots anywhere but "
